@@ -221,6 +221,15 @@ func VH_C20_Named(p []int) {
 		root = And().Push("a", Or().SetParen(pb()).Push((*Stack)(nil)), "b")
 	case 9:
 		root = And().Push(Or().SetParen(pb()).Push((*Condition)(nil)), List().Push((*vhAliasStack)(nil)))
+	case 12: // receivers that hold nothing: Reveal is a no-op, not a crash
+		var z Stack
+		z.Reveal()
+		f := And().Push(Or().Push(And().Push("x", "y")))
+		h := f
+		_ = f.Free()
+		f.Reveal()
+		Stack(vhAliasStack{}).Reveal()
+		root = h
 	case 11: // zero-valued instances in the first slot, a needless envelope behind them
 		var first any
 		switch nondetChoice(4) {
